@@ -143,6 +143,8 @@ pub fn run_scen(sc: &Scen, case: u64) -> J {
     let t1 = Instant::now();
     while !surv.is_empty() && t1.elapsed() < Duration::from_millis(1000) { std::thread::sleep(Duration::from_millis(20)); surv = survivors(&mark); }
     let log = read_log(&base);
+    let eval_groups: Vec<String> = log.iter().filter(|e| e["ev"] == "start").filter_map(|e| e["pgid"].as_i64().map(|g| g.to_string())).collect();
+    let (surv, escaped): (Vec<J>, Vec<J>) = surv.into_iter().partition(|s| s["pgrp"].as_str().map(|g| eval_groups.iter().any(|x| x == g)).unwrap_or(true));
     kill_marked(&mark);
     use std::os::unix::process::ExitStatusExt;
     let st = status.unwrap();
@@ -224,7 +226,7 @@ pub fn run_scen(sc: &Scen, case: u64) -> J {
             "exitCode": st.code(), "signal": st.signal(), "hang": hang, "wallMs": wall_ms,
             "stdoutLines": stdout_lines, "stderrTail": stderr_s.chars().rev().take(600).collect::<String>().chars().rev().collect::<String>(),
             "stderrPanic": stderr_s.contains("panicked at"),
-            "derived": derived, "log": log, "survivors": surv, "files": files, "sentinelIntact": sentinel_intact, "scriptNotes": script_notes,
+            "derived": derived, "log": log, "survivors": surv, "escapedBySetsid": escaped.len(), "files": files, "sentinelIntact": sentinel_intact, "scriptNotes": script_notes,
         }
     });
     let _ = std::fs::remove_dir_all(&base);
@@ -271,7 +273,7 @@ pub fn gen_scen(rng: &mut Rng, _thorough: bool) -> Scen {
             // (a child whose background process keeps the stdout pipe open never completes: the winner does not fork)
             let mut seeds = serde_json::Map::new();
             seeds.insert(winner.to_string(), json!({"wait": true, "value_of_seed": "neg"}));
-            sc.plan = json!({"default": {"wait": true, "value_of_seed": "neg", "fork": *rng.pick(&["none", "none", "keep"]), "ignore_term": rng.chance(1, 2)}, "seeds": seeds});
+            sc.plan = json!({"default": {"wait": true, "value_of_seed": "neg", "fork": *rng.pick(&["none", "none", "keep"]), "fork_ignore_term": rng.chance(1, 2), "ignore_term": rng.chance(1, 2)}, "seeds": seeds});
             sc.script = vec![Step::WaitStarts(nc), Step::Release(winner)];
             sc.expect = json!({"exit": "ok", "survivors": 0, "maxConcurrent": nc});
             sc
@@ -282,7 +284,7 @@ pub fn gen_scen(rng: &mut Rng, _thorough: bool) -> Scen {
             sc.opts = vec![s("--terminate-after"), s("1200ms"), s("--num-concurrent"), nc.to_string()];
             let mut seeds = serde_json::Map::new();
             seeds.insert("0".to_string(), json!({"wait": true, "value_of_seed": "const"}));
-            sc.plan = json!({"default": {"wait": true, "value_of_seed": "neg", "fork": *rng.pick(&["none", "keep"]), "ignore_term": rng.chance(1, 2)}, "seeds": seeds});
+            sc.plan = json!({"default": {"wait": true, "value_of_seed": "neg", "fork": *rng.pick(&["none", "keep"]), "fork_ignore_term": rng.chance(1, 2), "ignore_term": rng.chance(1, 2)}, "seeds": seeds});
             let early = rng.chance(1, 2);
             sc.script = if early { vec![Step::WaitStarts(nc), Step::Release(0)] } else { vec![Step::WaitStarts(nc)] };
             sc.expect = json!({"exit": if early { "ok" } else { "fail" }, "survivors": 0, "maxConcurrent": nc});
@@ -292,7 +294,7 @@ pub fn gen_scen(rng: &mut Rng, _thorough: bool) -> Scen {
             // interrupt
             let mut sc = base_scen("sigint");
             sc.opts = vec![s("--num-concurrent"), nc.to_string()];
-            sc.plan = json!({"default": {"wait": true, "value_of_seed": "neg", "ignore_term": rng.chance(1, 2)}});
+            sc.plan = json!({"default": {"wait": true, "value_of_seed": "neg", "fork": *rng.pick(&["none", "keep"]), "fork_ignore_term": true, "ignore_term": rng.chance(1, 2)}});
             let early = rng.chance(1, 2);
             sc.script = if early { vec![Step::WaitStarts(nc), Step::Release(0), Step::WaitStarts(nc + 1), Step::SigInt] } else { vec![Step::WaitStarts(nc), Step::SigInt] };
             sc.expect = json!({"exit": if early { "ok" } else { "fail" }, "survivors": 0, "maxConcurrent": nc});
@@ -308,7 +310,7 @@ pub fn gen_scen(rng: &mut Rng, _thorough: bool) -> Scen {
             let failing = rng.below(nc as u64);
             let mut seeds = serde_json::Map::new();
             seeds.insert(failing.to_string(), bad);
-            sc.plan = json!({"default": {"wait": true, "value_of_seed": "neg", "fork": *rng.pick(&["none", "keep"])}, "seeds": seeds});
+            sc.plan = json!({"default": {"wait": true, "value_of_seed": "neg", "fork": *rng.pick(&["none", "keep"]), "fork_ignore_term": rng.chance(1, 2)}, "seeds": seeds});
             // after the failure has had ample time to be handled (the run is over by then on a correct tree) everything
             // else is released, so that a run which wrongly goes on ends by its budget rather than by the watchdog
             sc.script = vec![Step::WaitStarts(nc), Step::Release(failing), Step::SleepMs(400), Step::ReleaseAllUntilExit];
@@ -323,7 +325,10 @@ pub fn gen_scen(rng: &mut Rng, _thorough: bool) -> Scen {
             sc.opts = vec![s("-n"), n.to_string(), s("-k"), s("700ms"), s("--num-concurrent"), (1 + rng.below(2)).to_string()];
             let mut seeds = serde_json::Map::new();
             let mut slow = 0;
-            for sd in 0..n { if rng.chance(1, 2) && slow < 3 { slow += 1; seeds.insert(sd.to_string(), json!({"wait": true, "fork": *rng.pick(&["none", "keep", "detach-stdio"]), "ignore_term": true, "value_of_seed": "neg"})); } }
+            for sd in 0..n { if rng.chance(1, 2) && slow < 3 { slow += 1; seeds.insert(sd.to_string(), json!({"wait": true, "fork": *rng.pick(&["none", "keep", "detach-stdio"]), "fork_ignore_term": rng.chance(1, 2), "ignore_term": rng.chance(1, 2), "value_of_seed": "neg"})); } }
+            // a slow child whose helper left the process group (setsid) but still holds the output pipe: the helper is not
+            // the tool's to kill, and the evaluation must all the same end at its time limit and the run continue
+            for sd in 0..n { if !seeds.contains_key(&sd.to_string()) && slow < 3 && rng.chance(1, 4) { slow += 1; seeds.insert(sd.to_string(), json!({"wait": true, "fork": "keep", "fork_setsid": true, "value_of_seed": "neg"})); } }
             // a child that answers and EXITS while a background process of its group keeps the output pipe open: the
             // evaluation cannot complete (no EOF), so the time limit must kill the group - the leader is already gone
             for sd in 0..n { if !seeds.contains_key(&sd.to_string()) && slow < 3 && rng.chance(1, 3) { slow += 1; seeds.insert(sd.to_string(), json!({"fork": "keep", "value_of_seed": "neg"})); } }
